@@ -902,10 +902,14 @@ def S.adoptSession (s : S) (cfg : Cfg) : S × Except Err (List Warn) :=
     | some raw => match decodeValue raw with | .error _ => true | .ok _ => false
     | none => false
   let delFails : Nat → Bool := fun k => s.fDel && firstCorrupt == some k
+  -- corrupt records are deleted (with a warning) before any fatal limit check
+  let cl := classify delFails s.core.store.sortedKeys { store := s.core.store }
+  let dels := cl.warns.filterMap fun w => match w with | .corruptDeleted k => some (Ev.del k) | .corruptKept k => some (Ev.delFail k) | _ => none
   match adopt s.core.store cfg.atLeastOnceMax cfg.exactlyOnceMax delFails with
-  | .error _ => (s, .error (mkErr ["other"]))
+  | .error _ =>
+    ({ s with core := { s.core with store := cl.store }, evs := dels.reverse ++ s.evs,
+              fDel := s.fDel && firstCorrupt.isNone }, .error (mkErr ["other"]))
   | .ok a =>
-    let dels := a.warns.filterMap fun w => match w with | .corruptDeleted k => some (Ev.del k) | .corruptKept k => some (Ev.delFail k) | _ => none
     let n1 := a.alo.length
     let n2 := a.eo.length + a.rel.length
     let q1 := (List.range n1).map (· + 1000000)
